@@ -261,7 +261,7 @@ class QuotaDistributor:
                 return selected
             elif self.on_overaward == 'error':
                 raise votelib.evaluate.core.VotingSystemError(
-                    f'quota {self.quota_function.__name__} awarded total'
+                    f'quota {getattr(self.quota_function, "__name__", "")} awarded total'
                     f' {total_awarded} seats, {n_seats} expected'
                 )
             elif self.on_overaward == 'subtract':
